@@ -7,9 +7,20 @@ MANIFEST = dict(
     design="4/C02")
 
 
+def select(r):
+    if r["kind"] == "slots":
+        return True
+    # a transition whose slot-advance part already disagrees (wrong fork after process_slots, or the Spec's
+    # process_slots failing where Go went on) is a slots/upgrade failure observed through a block record
+    d = r["detail"]
+    return r["kind"] == "trans" and not r["ok"] and (
+        "block-fork-differs-from-state-fork" in d or "spec-stage=process_slots" in d or "fork differs" in d)
+
+
 def make_check():
     return beacon.BeaconCheck(
-        "C02", lambda r: r["kind"] == "slots", beacon.judge_plain,
+        "C02", select, beacon.judge_plain,
         rule="every `slots` record (ProcessSlots from a recorded pre-state to a target slot, single and multi-slot jumps, across epoch and fork boundaries): zrnt's post-state bytes vs the Spec's. distinct = (chain, record)",
-        make_targets=["Properties/C02.vo", "Beacon/Run.vo"], trust=beacon.BEACON_TRUST,
+        make_targets=["Properties/C02.vo", "Beacon/Run.vo", "Beacon/Refine/ImplRun.vo"], trust=beacon.BEACON_TRUST,
+        extra_streams=["C02IMPL"],
         model_files=["coq/Beacon/Spec/*.v", "coq/Beacon/Run.v", "coq/Beacon/Proofs/TransitionRules.v", "coq/Properties/C02.v"])
